@@ -30,18 +30,27 @@ func (f *AppArmorProfileFile) Resolve() error {
 
 	// Append value to variable
 	seen := map[string]*Variable{}
-	for idx, variable := range f.Preamble.GetVariables() {
+	preamble := make(Rules, 0, len(f.Preamble))
+	for _, r := range f.Preamble {
+		variable, isVariable := r.(*Variable)
+		if !isVariable {
+			preamble = append(preamble, r)
+			continue
+		}
 		if _, ok := seen[variable.Name]; ok {
 			if variable.Define {
 				return fmt.Errorf("variable %s already defined", variable.Name)
 			}
+			// Fold the appended values in the definition, drop the append rule
 			seen[variable.Name].Values = append(seen[variable.Name].Values, variable.Values...)
-			f.Preamble = f.Preamble.Delete(idx)
+			continue
 		}
 		if variable.Define {
 			seen[variable.Name] = variable
 		}
+		preamble = append(preamble, r)
 	}
+	f.Preamble = preamble
 
 	// Resolve variables
 	for _, variable := range f.Preamble.GetVariables() {
